@@ -93,6 +93,8 @@ impl Src {
             }
             _ => {}
         }
+        // (always there: a name the index has to escape - quote, backslash, newline)
+        t.insert("q\"\\\n".into(), Node::file(b"esc", T0 + 141));
         match self.l {
             1 => {
                 t.insert("l".into(), Node::symlink("f", T0 + 131));
